@@ -182,6 +182,23 @@ def clean_all_after_config_change_case(pr):
     return None
 
 
+def symlinked_output_path_case(pr):
+    """a declared output path that is itself a symbolic link: what it points to is not touched"""
+    pr.write("src/a.txt", "a")
+    pr.write("deploy/site/index.html", "live site")
+    pr.write("deploy/report.txt", "live report")
+    pr.symlink("deploy/site", "dist")
+    pr.symlink("deploy/report.txt", "report.txt")
+    t = {"input": [{"paths": ["src"]}], "output": [{"paths": ["dist", "report.txt"]}], "build": logging_build("site", body="true")}
+    pr.write("zinoma.yml", yml({"site": t}))
+    for args in (["--clean"], ["--clean", "site"]):
+        r = pr.run(*args)
+        for f in ("deploy/site/index.html", "deploy/report.txt"):
+            if not pr.exists(f):
+                return {"property": "C12", "expected": "`zinoma %s`: the declared outputs dist and report.txt are symbolic links: nothing reached through them (%s) is deleted" % (" ".join(args), f), "observed": "%s is gone" % f, "zinoma": r.brief()}
+    return None
+
+
 def no_clean_case(pr):
     _project(pr)
     if not _build_all(pr):
@@ -202,5 +219,6 @@ def cases(seed, tier="quick"):
         Case("clean", "clean-multipart-ext", clean_multipart_ext_case, "multi-part extension without its dot in a filtered output"),
         Case("clean", "shared-output-dir", shared_output_dir_case, "shared output directory with different filters; listed regular files"),
         Case("clean", "clean-all-after-config-change", clean_all_after_config_change_case, "--clean alone after a target left the project file"),
+        Case("clean", "symlinked-output-path", symlinked_output_path_case, "a declared output that is itself a link"),
         Case("clean", "no-clean", no_clean_case, "without --clean nothing is deleted"),
     ]
